@@ -1,21 +1,903 @@
-//! Monitor for property C12 (see /verif/DESIGN.md §6).
+//! Monitor for property C12 (see /verif/DESIGN.md §6): typesetting a paragraph conserves its
+//! content and honours the geometry.
+//!
+//! Real code driven: `boxworks_text::TextPreprocessorImpl::add_text`,
+//! `boxworks_knuthplass::LineBreaker::{break_line_all_attempts, break_line}` (which contains
+//! `post_line_break`), `boxworks_hyphenate::Hyphenator` (black box), `ds::HBox::pack` (through
+//! `break_line`). Oracles: the reference model in `vmodels::paragraph` (own transcription of
+//! TeX §1034, §1041-§1044, §816, §877-§890) in two formulations (exact expected line contents;
+//! consumption-style conservation walk), plus the panic oracle.
+
+mod gen;
+mod pipe;
+
+use boxworks::ds;
+use boxworks::{LineBreaker as _, TextPreprocessor as _};
+use boxworks_knuthplass as kp;
+use common::Scaled;
+use pipe::*;
 use vcore::*;
+use vmodels::paragraph as model;
+use vmodels::paragraph::{GlueSpec, MNode, Prune};
 
 pub struct M;
 pub static MONITOR: M = M;
+
+pub const F_KEPT: &str = "C12-discardables-after-break-kept";
+pub const F_SPACESKIP: &str = "C12-spaceskip-ignores-space-factor";
+
+// ------------------------------------------------------------------------------------------
+// text -> horizontal list
+
+struct TextSetup {
+    text: String,
+    sf_codes: [i32; 256],
+    space_skip: common::Glue,
+    xspace_skip: common::Glue,
+}
+
+impl TextSetup {
+    fn params(&self) -> boxworks_text::Params {
+        boxworks_text::Params {
+            space_factor_codes: boxworks_text::SpaceFactorCodes(self.sf_codes),
+            space_skip: self.space_skip,
+            extra_space_skip: self.xspace_skip,
+        }
+    }
+    fn json(&self) -> Value {
+        let plain = model::plain_sf_codes();
+        let changed: Vec<Value> =
+            (0..256).filter(|&c| self.sf_codes[c] != plain[c]).map(|c| json!([c, self.sf_codes[c]])).collect();
+        json!({
+            "text": self.text,
+            "spaceskip": glue_to_spec(&self.space_skip).render(),
+            "xspaceskip": glue_to_spec(&self.xspace_skip).render(),
+            "sfcodes_changed_from_plain": changed,
+        })
+    }
+}
+
+/// Runs the real `add_text`. `None` = it panicked (reported).
+fn real_add_text(ctx: &Ctx, ts: &TextSetup, obs: &mut Obs) -> Option<Vec<ds::Horizontal>> {
+    let r = catch(|| {
+        let mut tp = new_preprocessor(ctx, ts.params());
+        let mut list = vec![];
+        tp.add_text(&ts.text, &mut list);
+        list
+    });
+    match r {
+        Ok(l) => Some(l),
+        Err(p) => {
+            obs.repo_panic(&p, json!({"stage": "add_text", "case": ts.json()}));
+            None
+        }
+    }
+}
+
+/// Oracle for text -> list. `strict` = calibration mode (no deviation model, TeX only).
+/// Returns false if the case failed (violation or known finding reported).
+fn check_text_list(ctx: &Ctx, ts: &TextSetup, list: &[MNode], obs: &mut Obs, strict: bool) -> bool {
+    let ss = glue_to_spec(&ts.space_skip);
+    let xs = glue_to_spec(&ts.xspace_skip);
+    let Some(words) = model::expected_words(&ts.text, &ts.sf_codes, &ctx.font_space, &ss, &xs) else {
+        obs.skip("glue arithmetic overflows in TeX (arith_error)");
+        return true;
+    };
+    // split the real list at its glue nodes
+    let mut segs: Vec<&[MNode]> = vec![];
+    let mut glues: Vec<&MNode> = vec![];
+    let mut start = 0;
+    for (i, n) in list.iter().enumerate() {
+        if matches!(n, MNode::Glue { .. }) {
+            segs.push(&list[start..i]);
+            glues.push(n);
+            start = i + 1;
+        }
+    }
+    segs.push(&list[start..]);
+    // a text ending in blanks may or may not leave a final glue: §816 removes it anyway
+    if segs.len() == words.len() + 1 && segs.last().map(|s| s.is_empty()).unwrap_or(false) && !words.is_empty() {
+        segs.pop();
+        glues.pop();
+    }
+    let detail = |what: &str, extra: Value| {
+        json!({"what": what, "case": ts.json(), "list": model::render_list(list), "more": extra})
+    };
+    if segs.len() != words.len() {
+        obs.violation(
+            "text:word-count",
+            detail("number of glue-separated segments differs from the number of words", json!({"segments": segs.len(), "words": words.len()})),
+        );
+        return false;
+    }
+    for (i, (seg, w)) in segs.iter().zip(&words).enumerate() {
+        if let Err(e) = model::check_word_segment(seg, &w.word, 0) {
+            obs.violation("text:word-misspelled", detail(&e, json!({"word_index": i, "word": w.word, "segment": model::render_list(seg)})));
+            return false;
+        }
+        for n in seg.iter() {
+            match n {
+                MNode::Lig { .. } => obs.count("text_ligatures"),
+                MNode::Kern { .. } => obs.count("text_font_kerns"),
+                MNode::Disc { .. } => obs.count("text_explicit_hyphen_discretionaries"),
+                _ => {}
+            }
+        }
+    }
+    // inter-word glue
+    let mut all_tex = true;
+    let mut all_dev = true;
+    let mut trigger = false;
+    let mut first_bad: Option<usize> = None;
+    for (i, g) in glues.iter().enumerate() {
+        let (sf, tex, dev) = words[i].space_after.expect("not the last word");
+        let tex_n = MNode::glue(tex);
+        let dev_n = MNode::glue(dev);
+        let class = if sf == 1000 {
+            "1000"
+        } else if sf < 1000 {
+            "lt1000"
+        } else if sf < 2000 {
+            "1001to1999"
+        } else {
+            "ge2000"
+        };
+        let source = if sf >= 2000 && !xs.is_zero_glue() && sf != 1000 {
+            "xspaceskip"
+        } else if !ss.is_zero_glue() {
+            "spaceskip"
+        } else {
+            "font"
+        };
+        obs.count(&format!("space_sf_{class}_{source}"));
+        if **g != tex_n {
+            all_tex = false;
+            if first_bad.is_none() {
+                first_bad = Some(i);
+            }
+        }
+        if **g != dev_n {
+            all_dev = false;
+        }
+        if tex != dev {
+            // syntactic trigger of F_SPACESKIP: \spaceskip non-zero, space factor not 1000 and
+            // \xspaceskip not taking over, and §1044 actually changes something
+            trigger = true;
+        }
+    }
+    if trigger {
+        obs.count("texts_where_1044_modifies_spaceskip");
+    }
+    if all_tex {
+        if trigger {
+            obs.count("spaceskip_scaled_as_tex_1044");
+        }
+        return true;
+    }
+    let i = first_bad.unwrap();
+    let (sf, tex, dev) = words[i].space_after.unwrap();
+    let d = detail(
+        "inter-word glue differs from TeX §1041-§1044",
+        json!({
+            "after_word_index": i, "after_word": words[i].word, "space_factor": sf,
+            "got": glues[i].render(), "tex": tex.render(), "deviation_model_spaceskip_unscaled": dev.render(),
+        }),
+    );
+    if !strict && trigger && all_dev {
+        obs.known(F_SPACESKIP, d);
+    } else {
+        obs.violation("text:interword-glue", d);
+    }
+    false
+}
+
+// ------------------------------------------------------------------------------------------
+// horizontal list -> lines
+
+struct BreakSetup {
+    kp: kp::Params,
+    widths: Vec<Scaled>,
+    indents: Vec<Scaled>,
+    prefix: Vec<ds::Vertical>,
+    hyphenation: bool,
+}
+
+impl BreakSetup {
+    fn json(&self) -> Value {
+        json!({
+            "widths": self.widths.iter().map(|w| model::print_scaled(w.0)).collect::<Vec<_>>(),
+            "indents": self.indents.iter().map(|w| model::print_scaled(w.0)).collect::<Vec<_>>(),
+            "params": format!("{:?}", self.kp),
+            "hyphenation": self.hyphenation,
+            "vlist_prefix_items": self.prefix.len(),
+        })
+    }
+}
+
+#[derive(Default)]
+struct BreakOutcome {
+    lines: usize,
+    failed: bool,
+    hyphenated: bool,
+    canonical: u64,
+}
+
+struct RealLine {
+    width: i32,
+    shift: i32,
+    items: Vec<MNode>,
+    penalty_after: Option<i32>,
+}
+
+/// Splits what `break_line` appended to the vertical list into lines.
+fn split_vlist(v: &[ds::Vertical], prefix_len: usize) -> Result<Vec<RealLine>, String> {
+    let mut out: Vec<RealLine> = vec![];
+    let mut i = prefix_len;
+    while i < v.len() {
+        let need_glue = i > 0; // interline glue precedes every box except on an empty list
+        if let ds::Vertical::Glue(_) = &v[i] {
+            if !need_glue {
+                return Err("interline glue on an empty vertical list".to_string());
+            }
+            i += 1;
+        } else if need_glue {
+            return Err(format!("item {i}: expected interline glue before the line box"));
+        }
+        let Some(ds::Vertical::HBox(b)) = v.get(i) else {
+            return Err(format!("item {i}: expected a line box"));
+        };
+        i += 1;
+        let mut penalty_after = None;
+        if let Some(ds::Vertical::Penalty(p)) = v.get(i) {
+            penalty_after = Some(p.0);
+            i += 1;
+        }
+        out.push(RealLine { width: b.width.0, shift: b.shift_amount.0, items: list_to_m(&b.list), penalty_after });
+    }
+    Ok(out)
+}
+
+/// Nodes that hyphenation may rewrite (letters, their ligatures and kerns, discretionaries) are
+/// collapsed to the text they spell; everything else is kept verbatim.
+fn skeleton(list: &[MNode]) -> Vec<Result<String, MNode>> {
+    let mut out: Vec<Result<String, MNode>> = vec![];
+    for n in list {
+        match n {
+            MNode::Char { .. } | MNode::Lig { .. } | MNode::Disc { .. } | MNode::Kern { kind: model::KernKind::Normal, .. } => {
+                if !matches!(out.last(), Some(Ok(_))) {
+                    out.push(Ok(String::new()));
+                }
+                if let Some(Ok(s)) = out.last_mut() {
+                    n.spelled(s);
+                }
+            }
+            other => out.push(Err(other.clone())),
+        }
+    }
+    out
+}
+
+fn run_break<F: boxworks::FontRepo>(
+    obs: &mut Obs,
+    font_repo: &F,
+    hyph: &dyn boxworks::Hyphenator,
+    bs: &BreakSetup,
+    h_list: &[ds::Horizontal],
+    case_json: &dyn Fn() -> Value,
+    strict: bool,
+) -> BreakOutcome {
+    let mut out = BreakOutcome::default();
+    let list0 = list_to_m(h_list);
+    let pfs = glue_to_spec(&bs.kp.par_fill_skip);
+    let left = glue_to_spec(&bs.kp.left_skip);
+    let right = glue_to_spec(&bs.kp.right_skip);
+    let base = |what: &str, extra: Value| -> Value {
+        json!({"what": what, "case": case_json(), "setup": bs.json(), "list_before": model::render_list(&list0), "more": extra})
+    };
+
+    // ---- run A: the breakpoints, through the public break_line_all_attempts, on the list as
+    // §816 leaves it (our own §816: break_line's is checked against it below)
+    let spy_a = SpyHyphenator::new(hyph);
+    let mut list_a: Vec<ds::Horizontal> = h_list.to_vec();
+    if matches!(list_a.last(), Some(ds::Horizontal::Glue(_))) {
+        list_a.pop();
+    }
+    list_a.push(ds::Horizontal::Penalty(ds::Penalty(10000)));
+    list_a.push(ds::Horizontal::Glue(ds::Glue { kind: ds::GlueKind::Normal, value: bs.kp.par_fill_skip }));
+    let ra = catch(|| {
+        let mut lb = kp::LineBreaker {
+            params: &bs.kp,
+            line_widths: &bs.widths,
+            line_indents: &bs.indents,
+            debug_logger: None,
+            hyphenator: &spy_a,
+        };
+        let mut v = bs.prefix.clone();
+        lb.break_line_all_attempts(font_repo, &spy_a, &mut v, &mut list_a)
+    });
+    let breaks = match ra {
+        Ok(b) => b,
+        Err(p) => {
+            obs.repo_panic(&p, base("break_line_all_attempts panicked", json!({})));
+            out.failed = true;
+            return out;
+        }
+    };
+
+    // ---- run B: the real thing
+    let spy_b = SpyHyphenator::new(hyph);
+    let mut list_b: Vec<ds::Horizontal> = h_list.to_vec();
+    let mut v_list = bs.prefix.clone();
+    let rb = catch(|| {
+        let lb = kp::LineBreaker {
+            params: &bs.kp,
+            line_widths: &bs.widths,
+            line_indents: &bs.indents,
+            debug_logger: None,
+            hyphenator: &spy_b,
+        };
+        lb.break_line(font_repo, &mut v_list, &mut list_b);
+    });
+    if let Err(p) = rb {
+        obs.repo_panic(&p, base("break_line panicked", json!({"breakpoints": breaks})));
+        out.failed = true;
+        return out;
+    }
+    if spy_a.panicked.borrow().is_some() || spy_b.panicked.borrow().is_some() {
+        // the hyphenator is C13/C14's subject; the spy left the list unhyphenated
+        obs.skip("hyphenator panicked (left to C14); paragraph broken without hyphenation");
+    }
+    if spy_b.calls.get() > 0 {
+        obs.count("second_pass_reached");
+    }
+    let h = list_to_m(&list_b);
+    let ha = list_to_m(&list_a);
+    if h != ha {
+        obs.violation(
+            "list:break_line-and-all_attempts-disagree",
+            base("the list left by break_line differs from §816 + break_line_all_attempts", json!({"break_line": model::render_list(&h), "all_attempts": model::render_list(&ha)})),
+        );
+        out.failed = true;
+        return out;
+    }
+
+    // ---- E: the list before and after (§816; hyphenation may only rewrite words)
+    let want = model::finish_list_816(&list0, pfs);
+    if h == want {
+        obs.count("list_unchanged_except_816");
+    } else if bs.hyphenation && spy_b.calls.get() > 0 && skeleton(&h) == skeleton(&want) {
+        out.hyphenated = true;
+        obs.count("list_hyphenated");
+    } else {
+        obs.violation(
+            "list:after-differs-from-before",
+            base(
+                "the list after break_line is not the list before with §816 applied (and words re-hyphenated)",
+                json!({"after": model::render_list(&h), "want": model::render_list(&want)}),
+            ),
+        );
+        out.failed = true;
+        return out;
+    }
+    if matches!(list0.last(), Some(MNode::Glue { .. })) {
+        obs.count("trailing_glue_removed_816");
+    }
+
+    // ---- breakpoints: increasing, legal, ending at the end
+    let mut ok = !breaks.is_empty() && breaks.last() == Some(&h.len());
+    for w in breaks.windows(2) {
+        ok &= w[0] < w[1];
+    }
+    for &b in &breaks {
+        ok &= b <= h.len() && model::is_legal_breakpoint(&h, b);
+    }
+    if !ok {
+        obs.violation(
+            "breakpoints:not-a-legal-increasing-sequence",
+            base("breakpoints are not strictly increasing legal breakpoints ending at the end of the list", json!({"breakpoints": breaks, "list": model::render_list(&h)})),
+        );
+        out.failed = true;
+        return out;
+    }
+    for &b in &breaks {
+        let kind = match h.get(b) {
+            None => "final",
+            Some(MNode::Glue { .. }) => "glue",
+            Some(MNode::Kern { .. }) => "kern",
+            Some(MNode::Penalty(_)) => "penalty",
+            Some(MNode::Disc { pre, post, replace }) => {
+                if !pre.is_empty() {
+                    obs.count("disc_break_with_pre");
+                }
+                if !post.is_empty() {
+                    obs.count("disc_break_with_post");
+                }
+                if *replace > 0 {
+                    obs.count("disc_break_with_replaced_nodes");
+                }
+                "disc"
+            }
+            _ => "other",
+        };
+        obs.count(&format!("break_at_{kind}"));
+    }
+
+    // ---- the vertical list
+    if v_list.len() < bs.prefix.len() || v_list[..bs.prefix.len()] != bs.prefix[..] {
+        obs.violation("vlist:prefix-changed", base("material already on the vertical list was changed", json!({})));
+        out.failed = true;
+        return out;
+    }
+    let lines = match split_vlist(&v_list, bs.prefix.len()) {
+        Ok(l) => l,
+        Err(e) => {
+            obs.violation("vlist:shape", base(&e, json!({"vlist": format!("{:?}", &v_list[bs.prefix.len()..]).chars().take(2000).collect::<String>()})));
+            out.failed = true;
+            return out;
+        }
+    };
+    out.lines = lines.len();
+    let real_items: Vec<Vec<MNode>> = lines.iter().map(|l| l.items.clone()).collect();
+    let render_lines = |ls: &[Vec<MNode>]| -> Vec<String> { ls.iter().map(|l| model::render_list(l)).collect() };
+    let full = |what: &str, extra: Value| -> Value {
+        json!({
+            "what": what, "case": case_json(), "setup": bs.json(),
+            "list_broken": model::render_list(&h), "breakpoints": breaks,
+            "lines": render_lines(&real_items), "more": extra,
+        })
+    };
+    if lines.len() != breaks.len() {
+        obs.violation("lines:count", full("number of line boxes differs from the number of breakpoints", json!({"lines": lines.len()})));
+        out.failed = true;
+        return out;
+    }
+
+    // ---- geometry (§889) and penalties (§890)
+    let widths: Vec<i32> = bs.widths.iter().map(|w| w.0).collect();
+    let indents: Vec<i32> = bs.indents.iter().map(|w| w.0).collect();
+    let tex = match model::expected_lines(&h, &breaks, left, right, Prune::Tex) {
+        Ok(t) => t,
+        Err(e) => {
+            obs.violation("breakpoints:unusable", full(&e, json!({})));
+            out.failed = true;
+            return out;
+        }
+    };
+    for (k, l) in lines.iter().enumerate() {
+        let (w, ind) = model::line_geometry(k, &widths, &indents);
+        if k >= widths.len() {
+            obs.count("line_past_end_of_width_sequence");
+        }
+        if !indents.is_empty() && k >= indents.len() {
+            obs.count("line_past_end_of_indent_sequence");
+        }
+        if l.width != w {
+            obs.violation("geometry:width", full("line box width is not the requested line width", json!({"line": k, "got": model::print_scaled(l.width), "want": model::print_scaled(w)})));
+            out.failed = true;
+        }
+        if l.shift != ind {
+            obs.violation("geometry:indent", full("line box shift is not the requested indent", json!({"line": k, "got": model::print_scaled(l.shift), "want": model::print_scaled(ind)})));
+            out.failed = true;
+        }
+        let want_pen = model::interline_penalty(
+            k,
+            lines.len(),
+            tex[k].disc_break,
+            bs.kp.inter_line_penalty,
+            bs.kp.club_penalty,
+            bs.kp.final_widow_penalty,
+            bs.kp.broken_penalty,
+        );
+        if want_pen.is_some() {
+            obs.count("interline_penalty_nodes");
+        }
+        if tex[k].disc_break && k + 1 < lines.len() {
+            obs.count("broken_penalty_lines");
+        }
+        if l.penalty_after != want_pen {
+            obs.violation(
+                "penalty:interline",
+                full("penalty after the line differs from TeX §890", json!({"line": k, "of": lines.len(), "got": l.penalty_after, "want": want_pen, "disc_break": tex[k].disc_break})),
+            );
+            out.failed = true;
+        }
+    }
+    if out.failed {
+        return out;
+    }
+
+    // ---- content: exact expectation and conservation walk
+    let tex_items: Vec<Vec<MNode>> = tex.iter().map(|l| l.items.clone()).collect();
+    let exact_ok = tex_items == real_items;
+    let cons = model::check_conservation(&h, &breaks, &real_items, left, right);
+    let cons_ok = cons.problems.is_empty();
+    let would_prune: usize = tex.iter().map(|l| l.pruned).sum();
+    // independent of whether the code prunes (TeX) or keeps (open finding) them
+    obs.add("discardables_following_chosen_breaks", would_prune as u64);
+    if exact_ok != cons_ok {
+        obs.inconclusive(format!(
+            "the two formulations of the line-content oracle disagree (exact={exact_ok}, conservation problems={:?})",
+            cons.problems
+        ));
+        if obs.verbose {
+            println!("{}", serde_json::to_string_pretty(&full("formulations disagree", json!({"tex": render_lines(&tex_items)}))).unwrap_or_default());
+        }
+        out.failed = true;
+        return out;
+    }
+    if exact_ok {
+        obs.add("nodes_pruned_after_breaks_879", would_prune as u64);
+        if would_prune > 0 {
+            obs.count("paragraphs_where_879_prunes");
+        }
+        obs.add("break_glue_vanished", cons.vanished_break_glue as u64);
+        obs.add("replaced_nodes_vanished", cons.vanished_replaced as u64);
+        obs.add("lines_starting_with_post_break", cons.lines_starting_with_post_break as u64);
+    } else {
+        // trigger of F_KEPT: §879 has something to delete after one of the chosen breaks
+        let trigger = would_prune > 0;
+        let dev = model::expected_lines(&h, &breaks, left, right, Prune::None).expect("same breaks as above");
+        let dev_items: Vec<Vec<MNode>> = dev.iter().map(|l| l.items.clone()).collect();
+        let first_diff = tex_items.iter().zip(&real_items).position(|(a, b)| a != b).unwrap_or(0);
+        let d = full(
+            "line contents differ from TeX's post_line_break",
+            json!({
+                "first_differing_line": first_diff,
+                "tex": render_lines(&tex_items),
+                "conservation_problems": cons.problems.iter().map(|(s, d)| format!("{s}: {d}")).collect::<Vec<_>>(),
+                "nodes_879_deletes": would_prune,
+            }),
+        );
+        if !strict && trigger && dev_items == real_items {
+            obs.known(F_KEPT, d);
+            obs.add("known_kept_discardables", would_prune as u64);
+        } else {
+            let sig = cons.problems.first().map(|p| p.0).unwrap_or("content");
+            obs.violation(format!("lines:{sig}"), d);
+        }
+        out.failed = true;
+    }
+    obs.add("lines_checked", lines.len() as u64);
+    obs.count(&format!("paragraphs_with_lines_{}", match lines.len() { 1 => "1", 2 => "2", 3..=5 => "3to5", 6..=15 => "6to15", _ => "16plus" }));
+    out.canonical = stable_hash(&(model::render_list(&h), &breaks, &widths, &indents, left, right));
+    out
+}
+
+// ------------------------------------------------------------------------------------------
+// phases
+
+fn text_case(rng: &mut Rng, obs: &mut Obs, fixed: Option<(TextSetup, BreakSetup)>) {
+    let ctx = match ctx() {
+        Ok(c) => c,
+        Err(e) => {
+            obs.inconclusive(format!("font context: {e}"));
+            return;
+        }
+    };
+    let (ts, bs) = match fixed {
+        Some(x) => x,
+        None => {
+            let max_words = if obs.tier == Tier::Thorough { 120 } else { 70 };
+            let text = gen::text(rng, max_words);
+            let (sf_codes, space_skip, xspace_skip) = gen::text_params(rng);
+            let ts = TextSetup { text, sf_codes, space_skip, xspace_skip };
+            let narrow = rng.chance(1, 3);
+            let bs = BreakSetup {
+                kp: gen::kp_params(rng),
+                widths: if narrow { gen::widths(rng, 40, 120) } else { gen::widths(rng, 80, 420) },
+                indents: gen::indents(rng),
+                prefix: gen::prefix(rng),
+                hyphenation: rng.chance(2, 3),
+            };
+            (ts, bs)
+        }
+    };
+    let Some(list) = real_add_text(&ctx, &ts, obs) else { return };
+    let m = list_to_m(&list);
+    let text_ok = check_text_list(&ctx, &ts, &m, obs, false);
+    obs.count("texts_checked");
+    let case_json = || ts.json();
+    let o = if bs.hyphenation {
+        run_break(obs, &ctx.font_repo, &ctx.hyphenator, &bs, &list, &case_json, false)
+    } else {
+        run_break(obs, &ctx.font_repo, &NoHyphenation, &bs, &list, &case_json, false)
+    };
+    if o.hyphenated {
+        obs.count("paragraphs_hyphenated");
+    }
+    if o.lines >= 2 {
+        obs.nontrivial_hash(o.canonical);
+        obs.count("text_paragraphs_multi_line");
+    }
+    if obs.wants_sample() && o.lines >= 2 && text_ok && !o.failed {
+        obs.sample(json!({"text": ts.text, "setup": bs.json(), "lines": o.lines, "hyphenated": o.hyphenated}));
+    }
+}
+
+fn list_case(rng: &mut Rng, obs: &mut Obs, fixed: Option<(Vec<ds::Horizontal>, BreakSetup)>) {
+    let (list, bs) = match fixed {
+        Some(x) => x,
+        None => {
+            let max_items = if obs.tier == Tier::Thorough { 90 } else { 60 };
+            let list = gen::ListGen::new().list(rng, max_items);
+            let bs = BreakSetup {
+                kp: gen::kp_params(rng),
+                widths: gen::widths(rng, 15, 150),
+                indents: gen::indents(rng),
+                prefix: gen::prefix(rng),
+                hyphenation: false,
+            };
+            (list, bs)
+        }
+    };
+    let rendered = model::render_list(&list_to_m(&list));
+    let case_json = || json!({"hand_built_list": rendered});
+    let o = run_break(obs, &SynthFont, &NoHyphenation, &bs, &list, &case_json, false);
+    obs.count("lists_checked");
+    if o.lines >= 2 {
+        obs.nontrivial_hash(o.canonical);
+        obs.count("list_paragraphs_multi_line");
+    }
+    if obs.wants_sample() && o.lines >= 2 && !o.failed {
+        obs.sample(json!({"list": rendered, "setup": bs.json(), "lines": o.lines}));
+    }
+}
+
+/// Exhaustive: every word of length 1..=3 over one representative per space-factor class, in the
+/// four zero/non-zero combinations of \spaceskip and \xspaceskip, followed by a space.
+const SF_ALPHABET: &[char] = &['a', 'A', '.', ',', ';', ':', ')', '!'];
+const SF_ENUM_WORDS: u64 = 8 + 64 + 512;
+const SF_ENUM_CASES: u64 = SF_ENUM_WORDS * 4;
+
+fn sf_enum_case(idx: u64, obs: &mut Obs) {
+    let ctx = match ctx() {
+        Ok(c) => c,
+        Err(e) => {
+            obs.inconclusive(format!("font context: {e}"));
+            return;
+        }
+    };
+    let cfg = idx / SF_ENUM_WORDS;
+    let mut w = idx % SF_ENUM_WORDS;
+    let len = if w < 8 {
+        1
+    } else if w < 72 {
+        w -= 8;
+        2
+    } else {
+        w -= 72;
+        3
+    };
+    let mut word = String::new();
+    for _ in 0..len {
+        word.push(SF_ALPHABET[(w % 8) as usize]);
+        w /= 8;
+    }
+    let pt = |x: i32| Scaled(x * 65536);
+    let ss = if cfg & 1 == 1 {
+        common::Glue { width: pt(10), stretch: pt(4), shrink: pt(2), ..common::Glue::ZERO }
+    } else {
+        common::Glue::ZERO
+    };
+    let xs = if cfg & 2 == 2 {
+        common::Glue { width: pt(7), stretch: pt(1), shrink: pt(3), ..common::Glue::ZERO }
+    } else {
+        common::Glue::ZERO
+    };
+    let ts = TextSetup { text: format!("{word} x"), sf_codes: model::plain_sf_codes(), space_skip: ss, xspace_skip: xs };
+    let Some(list) = real_add_text(&ctx, &ts, obs) else { return };
+    check_text_list(&ctx, &ts, &list_to_m(&list), obs, false);
+    obs.count("sf_enum_checked");
+    obs.nontrivial_by_construction(1);
+    if obs.wants_sample() {
+        obs.sample(json!({"case": ts.json(), "list": model::render_list(&list_to_m(&list))}));
+    }
+}
+
+/// Exhaustive: every sequence of 1..=6 items over {char, glue, penalty, forced-break penalty,
+/// explicit kern, discretionary{-|y|0}, discretionary{||1}+char} at a width of two characters,
+/// plain parameters. Items carry their position (glue/kern width, penalty value) so that a node
+/// that survives a break names itself.
+const ENUM_KINDS: u64 = 7;
+const ENUM_MAX_LEN: u32 = 6;
+fn lists_enum_cases() -> u64 {
+    (1..=ENUM_MAX_LEN).map(|l| ENUM_KINDS.pow(l)).sum()
+}
+
+fn lists_enum_case(idx: u64, rng: &mut Rng, obs: &mut Obs) {
+    let mut rest = idx;
+    let mut len = 1u32;
+    while rest >= ENUM_KINDS.pow(len) {
+        rest -= ENUM_KINDS.pow(len);
+        len += 1;
+    }
+    let pt = |x: i32| Scaled(x * 65536);
+    let mut l: Vec<ds::Horizontal> = vec![];
+    for pos in 0..len as i32 {
+        let k = rest % ENUM_KINDS;
+        rest /= ENUM_KINDS;
+        match k {
+            0 => l.push(ds::Char { char: 'a', font: 0 }.into()),
+            1 => l.push(
+                ds::Glue {
+                    kind: ds::GlueKind::Normal,
+                    value: common::Glue { width: Scaled(3 * 65536 + pos), stretch: pt(1), shrink: pt(1), ..common::Glue::ZERO },
+                }
+                .into(),
+            ),
+            2 => l.push(ds::Penalty(pos).into()),
+            3 => l.push(ds::Penalty(-10000).into()),
+            4 => l.push(ds::Kern { width: Scaled(65536 + pos), kind: ds::KernKind::Explicit }.into()),
+            5 => l.push(
+                ds::Discretionary {
+                    pre_break: vec![ds::DiscretionaryElem::Char(ds::Char { char: '-', font: 0 })],
+                    post_break: vec![ds::DiscretionaryElem::Char(ds::Char { char: 'y', font: 0 })],
+                    replace_count: 0,
+                }
+                .into(),
+            ),
+            _ => {
+                l.push(ds::Discretionary { pre_break: vec![], post_break: vec![], replace_count: 1 }.into());
+                l.push(ds::Char { char: 'b', font: 0 }.into());
+            }
+        }
+    }
+    let bs = BreakSetup { kp: kp::Params::plain_tex_defaults(), widths: vec![pt(12)], indents: vec![], prefix: vec![], hyphenation: false };
+    list_case(rng, obs, Some((l, bs)));
+    obs.count("lists_enum_checked");
+}
+
+/// Fixed reproducers of the listed findings. They go through exactly the same oracles as the
+/// random cases, so they report KNOWN-FINDING while the defect is present and nothing once it is
+/// repaired.
+fn known_case(idx: u64, rng: &mut Rng, obs: &mut Obs) {
+    let pt = |x: i32| Scaled(x * 65536);
+    match idx {
+        0 => {
+            // AAAAA glue BBBBB glue penalty(0) glue CCCCC at a width that fits two words
+            let mut l: Vec<ds::Horizontal> = vec![];
+            let word = |l: &mut Vec<ds::Horizontal>, c: char| {
+                for _ in 0..5 {
+                    l.push(ds::Char { char: c, font: 0 }.into());
+                }
+            };
+            let glue = |w: i32| -> ds::Horizontal {
+                ds::Glue { kind: ds::GlueKind::Normal, value: common::Glue { width: pt(w), stretch: pt(2), ..common::Glue::ZERO } }.into()
+            };
+            word(&mut l, 'a'); // 'a' = 97: 97%5+3 = 5pt each
+            l.push(glue(5));
+            word(&mut l, 'f'); // 102%5+3 = 5pt
+            l.push(glue(5));
+            l.push(ds::Penalty(0).into());
+            l.push(glue(4));
+            word(&mut l, 'k'); // 107%5+3 = 5pt
+            let bs = BreakSetup { kp: kp::Params::plain_tex_defaults(), widths: vec![pt(56)], indents: vec![], prefix: vec![], hyphenation: false };
+            list_case(rng, obs, Some((l, bs)));
+        }
+        1 => {
+            let ts = TextSetup {
+                text: "a, b. c".into(),
+                sf_codes: model::plain_sf_codes(),
+                space_skip: common::Glue { width: pt(10), stretch: pt(4), shrink: pt(2), ..common::Glue::ZERO },
+                xspace_skip: common::Glue::ZERO,
+            };
+            let bs = BreakSetup { kp: kp::Params::plain_tex_defaults(), widths: vec![pt(300)], indents: vec![], prefix: vec![], hyphenation: false };
+            text_case(rng, obs, Some((ts, bs)));
+        }
+        _ => {
+            // an explicit kern break: the glue that makes the kern a legal breakpoint is always
+            // the first node of the next line
+            let mut l: Vec<ds::Horizontal> = vec![];
+            for c in ['a', 'a', 'a', 'a'] {
+                l.push(ds::Char { char: c, font: 0 }.into());
+            }
+            l.push(ds::Penalty(-10000).into());
+            l.push(ds::Glue { kind: ds::GlueKind::Normal, value: common::Glue { width: pt(3), ..common::Glue::ZERO } }.into());
+            l.push(ds::Kern { width: pt(1), kind: ds::KernKind::Explicit }.into());
+            for c in ['f', 'f'] {
+                l.push(ds::Char { char: c, font: 0 }.into());
+            }
+            let bs = BreakSetup { kp: kp::Params::plain_tex_defaults(), widths: vec![pt(40)], indents: vec![pt(3), pt(0)], prefix: vec![], hyphenation: false };
+            list_case(rng, obs, Some((l, bs)));
+        }
+    }
+}
+
+mod calib;
 
 impl Monitor for M {
     fn id(&self) -> &'static str {
         "C12"
     }
     fn rule(&self) -> String {
-        "not built yet".into()
+        "phase text: a random text over cmr10's printable ASCII (dictionary words with ff/fi/fl/ffi/ffl, kern pairs, \
+         capitals, . ? ! : ; , ) ' ], explicit hyphens and dashes, blank runs), random \\spaceskip/\\xspaceskip/\\sfcode, is turned \
+         into a list by the real add_text and checked against the §1034/§1041-1044 model; the list is then broken by the \
+         real break_line (hyphenation on in 2/3 of the cases, 1-5 line widths, 0-6 indents, random skip/penalty/tolerance \
+         parameters, sometimes material already on the vertical list) and every line box is compared with the §816/§877-890 \
+         model. phase lists: the same for hand-built lists (words of chars/ligatures/boxes/rules/font kerns, runs of 1-6 \
+         glue/penalty/explicit-kern items, discretionaries with 0-2 pre/post items replacing 0-3 nodes) with synthetic \
+         metrics. phase sf-enum: exhaustive. A case is non-trivial when the paragraph has at least two lines; distinct = \
+         hash of (list that was broken, breakpoints, widths, indents, left/right skip)."
+            .into()
     }
     fn assumptions(&self) -> Vec<String> {
-        vec![]
+        vec![
+            "reference model = own transcription of TeX §102-107, §148, §564-575, §816, §866-869, §877-890, §1034, §1041-1044 (vmodels::paragraph), calibrated against the repo's TeX-generated goldens (boxworks-knuthplass/testdata/*_want.txt) and the spacing table in boxworks-text's unit tests".into(),
+            "breakpoints are taken as chosen by the real Knuth-Plass code (their optimality is C04); only increasing order and legality are demanded here".into(),
+            "the hyphenator is a black box (C13/C14): demanded is only that the hyphenated list spells the same words between the same non-word nodes".into(),
+            "ligature/kern programs are C05: demanded is that the nodes of a word spell the word (ligature originals), not which ligatures form".into(),
+            "glue set ratios, heights and depths of the line boxes are C15; the interline glue value (\\baselineskip, marked TODO in the code) is not checked, only its presence".into(),
+            "glue parameters are bounded so that xn_over_d cannot overflow; shrink is finite; no math, marks, inserts or adjusts (HBox::pack has todo!() for them)".into(),
+            "replaced material of hand-built discretionaries contains no explicit kerns (TeX never looks for breakpoints there, §869)".into(),
+        ]
     }
-    fn phases(&self, _tier: Tier) -> Vec<Phase> {
-        vec![]
+    fn phases(&self, tier: Tier) -> Vec<Phase> {
+        vec![
+            Phase::new("known", 3).batch(1),
+            Phase::new("sf-enum", SF_ENUM_CASES).batch(64).exhaustive(
+                "all words of length 1..3 over {a A . , ; : ) !} x {spaceskip zero/non-zero} x {xspaceskip zero/non-zero}, followed by a space",
+            ),
+            Phase::new("lists-enum", lists_enum_cases()).batch(512).exhaustive(
+                "all lists of 1..6 items over {char, glue, penalty, penalty-10000, explicit kern, disc{-|y|0}, disc{||1}+char}, 12pt lines, plain parameters",
+            ),
+            Phase::new("text", tier.pick(150_000, 6_000_000)).batch(64),
+            Phase::new("lists", tier.pick(300_000, 12_000_000)).batch(128),
+        ]
     }
-    fn run_case(&self, _phase: &str, _idx: u64, _rng: &mut Rng, _obs: &mut Obs) {}
+    fn floors(&self, tier: Tier) -> Vec<(&'static str, u64)> {
+        // quick-tier floors are roughly 40% of what seed 0 observes; thorough scales with the
+        // number of random cases (x40), the exhaustive phases do not scale
+        let m: u64 = if tier == Tier::Quick { 1 } else { 35 };
+        vec![
+            ("sf_enum_checked", SF_ENUM_CASES),
+            ("lists_enum_checked", lists_enum_cases()),
+            ("texts_checked", 140_000 * m),
+            ("lists_checked", 400_000 * m),
+            ("lines_checked", 900_000 * m),
+            ("text_paragraphs_multi_line", 50_000 * m),
+            ("list_paragraphs_multi_line", 120_000 * m),
+            ("paragraphs_hyphenated", 25_000 * m),
+            ("second_pass_reached", 150_000 * m),
+            ("break_at_glue", 300_000 * m),
+            ("break_at_penalty", 120_000 * m),
+            ("break_at_kern", 5_000 * m),
+            ("break_at_disc", 200_000 * m),
+            ("disc_break_with_pre", 150_000 * m),
+            ("disc_break_with_post", 70_000 * m),
+            ("disc_break_with_replaced_nodes", 70_000 * m),
+            ("discardables_following_chosen_breaks", 200_000 * m),
+            ("broken_penalty_lines", 200_000 * m),
+            ("interline_penalty_nodes", 500_000 * m),
+            ("line_past_end_of_width_sequence", 500_000 * m),
+            ("line_past_end_of_indent_sequence", 250_000 * m),
+            ("trailing_glue_removed_816", 35_000 * m),
+            ("space_sf_1000_font", 500_000 * m),
+            ("space_sf_1000_spaceskip", 400_000 * m),
+            ("space_sf_lt1000_font", 60_000 * m),
+            ("space_sf_lt1000_spaceskip", 50_000 * m),
+            ("space_sf_1001to1999_font", 35_000 * m),
+            ("space_sf_1001to1999_spaceskip", 30_000 * m),
+            ("space_sf_ge2000_font", 40_000 * m),
+            ("space_sf_ge2000_spaceskip", 35_000 * m),
+            ("space_sf_ge2000_xspaceskip", 60_000 * m),
+            ("texts_where_1044_modifies_spaceskip", 15_000 * m),
+            ("text_ligatures", 800_000 * m),
+            ("text_font_kerns", 700_000 * m),
+            ("text_explicit_hyphen_discretionaries", 120_000 * m),
+        ]
+    }
+    fn calibrate(&self, obs: &mut Obs) {
+        calib::calibrate(obs);
+    }
+    fn run_case(&self, phase: &str, idx: u64, rng: &mut Rng, obs: &mut Obs) {
+        match phase {
+            "known" => known_case(idx, rng, obs),
+            "sf-enum" => sf_enum_case(idx, obs),
+            "text" => text_case(rng, obs, None),
+            "lists" => list_case(rng, obs, None),
+            "lists-enum" => lists_enum_case(idx, rng, obs),
+            other => obs.inconclusive(format!("unknown phase {other}")),
+        }
+    }
 }
